@@ -130,6 +130,7 @@ def main(tier, seed, prop=PROP):
     notable = [0xa0, 0xad, 0x34f, 0x61c, 0x115f, 0x180e, 0x200b, 0x200c, 0x200d, 0x200e, 0x200f, 0x2028, 0x2029, 0x202a, 0x202e, 0x2060,
                0x2066, 0x2069, 0x3000, 0x3002, 0xfe00, 0xfe0f, 0xfeff, 0xff0e, 0xff20, 0xff61, 0xfff9, 0xfffd, 0xfffe, 0xffff, 0xd7ff,
                0xe000, 0xf8ff, 0x1d173, 0x1f600, 0xe0001, 0xe0020, 0xe007f, 0xe0100, 0xf0000, 0x10fffd, 0x10ffff]
+    notable = sorted(set(notable) | set(gen.aliasing_code_points()))
     npos = []
     for cp in notable:
         x = chr(cp).encode("utf-8")
